@@ -191,7 +191,6 @@ func argSelections(b *strings.Builder, path string, ss ast.SelectionSet, vars ma
 	}
 }
 
-
 // safeArgMap resolves one argument map; a panic of the library (it panics on
 // values it cannot convert) is that field's result, not the end of the walk.
 // An injected abort of the simulator is passed on.
